@@ -103,6 +103,9 @@ fn env_noise(rng: &mut Rng) -> Vec<(String, String)> {
     // names nobody listed: the getenv seam reports a per-process subset of unset names as set
     env.push(("VERIF_ENV_SEED".to_string(), (1 + rng.below(1 << 32)).to_string()));
     env.push(("VERIF_NCPU".to_string(), rng.pick(&[1u64, 2, 4, 8, 16, 64, 256]).to_string()));
+    // how fast time passes while a worker is looking (0 = frozen, like the reference world)
+    env.push(("VERIF_CLOCK_STEP_NS".to_string(), rng.pick(&[0u64, 1, 1_000, 10_000_000, 3_000_000_000]).to_string()));
+    env.push(("VERIF_ISATTY".to_string(), rng.pick(&[1u64, 2]).to_string()));
     env
 }
 
